@@ -15,7 +15,7 @@ import ast
 from typing import Dict, List, Optional, Set, Tuple
 
 from ..astutil import txt
-from ..confinement import handler_functions, report_function, run_confinement
+from ..confinement import handler_functions, report_bypass, report_function, run_confinement
 from ..model import AnalysisError, FunctionInfo, walk_local
 from ..rcross import check_cross
 from .c04 import dispatch_info
@@ -72,6 +72,7 @@ def r12_endpoint_candidates(ctx, res):
             raise AnalysisError("%s: no collinear branch `%s.line == %s.line`" % (fi.where(), a, b))
         # candidates present in the collinear branch:  if X.e in Y: S.add(X.e)
         present: Set[Tuple[str, str, str]] = set()
+        fams = []
         for st in br.body:
             if isinstance(st, ast.If) and isinstance(st.test, ast.Compare) and len(st.test.ops) == 1 \
                     and isinstance(st.test.ops[0], ast.In):
@@ -80,6 +81,7 @@ def r12_endpoint_candidates(ctx, res):
                         and c.func.attr == "add" and c.args and txt(c.args[0]) == txt(e)]
                 if adds and isinstance(e, ast.Attribute) and isinstance(e.value, ast.Name) and isinstance(y, ast.Name):
                     present.add((e.value.id, e.attr, y.id))
+                    fams.append(st)
                 rets = [s2 for s2 in st.body if isinstance(s2, ast.Return) and s2.value is not None and txt(s2.value) == txt(e)]
                 if rets and isinstance(e, ast.Name) and isinstance(y, ast.Name):
                     present.add((e.id, "<whole>", y.id))
@@ -94,6 +96,8 @@ def r12_endpoint_candidates(ctx, res):
                                   "collinear branch of %s never offers the end point %s.%s as a candidate (guarded by `%s.%s in %s`): "
                                   "nested / overlapping configurations lose part of the overlap" % (fi.short, X, f, X, f, Y),
                                   construct="%s: candidate %s.%s" % (fi.short, X, f))
+        if fams:
+            n += report_bypass(ctx, res, fi, "R1.2", fams, br.body, "end-point candidates of the collinear branch")
         if ta == "HalfLine" and tb == "HalfLine":
             for X, Y in ((a, b), (b, a)):
                 n += 1
@@ -103,7 +107,7 @@ def r12_endpoint_candidates(ctx, res):
                 if not ok:
                     res.violation("R1.2", fi, br, "collinear half-lines: the case `%s in %s` (result is the whole half-line %s) is not "
                                   "handled" % (X, Y, X), construct="%s: whole-operand %s" % (fi.short, X))
-    ctx.require(res, "R1.2", n, 11, "end-point candidates")
+    ctx.require(res, "R1.2", n, 14, "end-point candidates")
 
 
 KIND = {"dv": "tangent", "vector": "tangent", "n": "normal"}
